@@ -669,7 +669,7 @@ def verify_entire_folder(
 
     exception = test_for_missing_files(not_found_paths, root_path, ignore_spec)
 
-    if not found_single_file:
+    if single_file is not None and not found_single_file:
         exception = errors.SingleFileNotFoundException()
 
     if num_new_files > 0:
